@@ -299,6 +299,9 @@ impl Check for SmartAccount {
     fn components(&self) -> serde_json::Value {
         serde_json::json!({"real": ["examples/multisig-smart-account/account (from source)", "smart_account::{do_check_auth, authenticate, get_valid_context_rules, get_validated_context, rule management}", "PolicyClient / VerifierClient call paths"], "stub": ["StubPolicy (scripted can_enforce / enforce trap, call log)", "StubVerifier (sig == key‖payload)", "Wallet for delegated signers"]})
     }
+    fn clock_step(&self, n: u32) -> Option<Step> {
+        Some(Step::Advance { n })
+    }
     fn dup_ok(&self, _s: &Step) -> bool {
         true
     }
